@@ -518,6 +518,14 @@ func vcliC18Session(r *verifrt.R, c *verifrt.Case) {
 				}
 			}
 		}
+		// whichever connection carried it: a request the client ended (END_STREAM) was sent whole
+		for _, u := range us {
+			if rq.BodyLen >= 0 && u.st.cliEnded && !u.st.cliReset && u.st.dataBytes != rq.BodyLen {
+				s.Viol("request-body-incomplete-on-the-wire", "stream %d on conn %d was ended by the client after %d body bytes, the request body has %d: %s", u.st.id, u.sc.Idx, u.st.dataBytes, rq.BodyLen, desc+lastTrace)
+			} else if rq.BodyLen > 0 && u.st.cliEnded && !u.st.cliReset {
+				r.Event("request_bodies_complete_on_the_wire", 1)
+			}
+		}
 		if !rq.Finished() {
 			if completed || len(us) == 0 {
 				continue
@@ -604,6 +612,11 @@ func vcliC18Session(r *verifrt.R, c *verifrt.Case) {
 				if _, ok := rq.Err.(GoAwayError); ok {
 					r.Event("le_L_error_is_GoAwayError", 1)
 				}
+			} else if !last.sc.closedBySrv && !last.sc.Dead && !last.st.srvReset {
+				// the connection is up, no GOAWAY was sent on it, the server has not reset the
+				// stream and the script never cancels a request: nothing explains the failure
+				// (seen when a retried request is sent with the body the first attempt consumed)
+				s.Viol("request-failed-on-a-healthy-connection", "%s", desc+lastTrace)
 			} else {
 				r.Event("requests_failed_on_conn_without_goaway", 1)
 			}
